@@ -515,7 +515,7 @@ def case_problems(ctx, c):
                           icls + ("/nbestfndr=1 (OPV)" if nbest == 1 else "/nbestfndr>1"), witness=dict(wx, got=lv, expected=exp), coords=coords)
 
 
-FAMILIES = {"helpers": (case_helpers, 20000, 1000000), "problems": (case_problems, 10000, 400000)}
+FAMILIES = {"helpers": (case_helpers, 20000, 600000), "problems": (case_problems, 10000, 240000)}
 
 
 def run_shard(ctx):
